@@ -172,8 +172,15 @@ extern const char* kProperty;
 uint64_t vf_ncases(const std::string& tier);
 void vf_run(uint64_t idx, const std::string& tier, vf::Ctx& c);
 std::string vf_describe(const std::string& tier);
+// optional: JSON object naming the coordinates of a case (used for crash / hang records, which carry no other detail)
+__attribute__((weak)) std::string vf_case_params(uint64_t idx, const std::string& tier);
 
 namespace vf {
+
+inline std::string case_params(uint64_t idx, const std::string& tier) {
+  if (vf_case_params) return vf_case_params(idx, tier);
+  return JO().u("case", idx).done();
+}
 
 inline void add(Counters& a, const Counters& b) {
   a.cases_done += b.cases_done; a.evaluations += b.evaluations; a.nontrivial += b.nontrivial;
@@ -287,9 +294,9 @@ inline int vf_main(int argc, char** argv) {
         if (clean) { pid[k] = 0; alive--; continue; }
         // crashed inside a case
         uint64_t idx = sh->w[k].current;
-        JO p; p.u("case", idx);
+        std::string pp = case_params(idx, tier);
         JO d; if (WIFSIGNALED(st)) d.i("signal", WTERMSIG(st)); else d.i("exit_status", WIFEXITED(st) ? WEXITSTATUS(st) : -1);
-        JO o; o.u("case", idx).str("site", "runner.crash").raw("params", p.done()).raw("detail", d.done()).str("outcome", "crash");
+        JO o; o.u("case", idx).str("site", "runner.crash").raw("params", pp).raw("detail", d.done()).str("outcome", "crash");
         extra_viol.push_back(o.done()); crash_count++;
         sh->w[k].busy = 0; sh->w[k].c.cases_done++; sh->w[k].c.violations++;
         if (crash_count < 200) spawn(k); else { pid[k] = 0; alive--; }
@@ -297,9 +304,9 @@ inline int vf_main(int argc, char** argv) {
         uint64_t idx = sh->w[k].current;
         kill(pid[k], SIGKILL); waitpid(pid[k], &st, 0);
         progressed = true;
-        JO p; p.u("case", idx);
+        std::string pp = case_params(idx, tier);
         JO d; d.num("timeout_s", case_timeout);
-        JO o; o.u("case", idx).str("site", "runner.hang").raw("params", p.done()).raw("detail", d.done()).str("outcome", "hang");
+        JO o; o.u("case", idx).str("site", "runner.hang").raw("params", pp).raw("detail", d.done()).str("outcome", "hang");
         extra_viol.push_back(o.done()); crash_count++;
         sh->w[k].busy = 0; sh->w[k].c.cases_done++; sh->w[k].c.violations++;
         if (crash_count < 200) spawn(k); else { pid[k] = 0; alive--; }
